@@ -3,7 +3,7 @@
 # Results go to /verif/seeded/<ID>/ (patch.diff, demo, meta.json with what was confirmed and which checks fired).
 set -u
 ID=$1; WT=$2; shift 2; CHECKS=${@:-$ID}
-OUT=/verif/seeded/$ID; mkdir -p $OUT
+OUT=/verif/seeded/${SEED_NAME:-$ID}; mkdir -p $OUT
 cp $WT/seed_patch.diff $OUT/patch.diff; cp $WT/seed_demo.py $OUT/demo.py; cp $WT/seed_meta.json $OUT/agent_meta.json
 cd $WT
 git checkout -q -- droplets && git apply seed_patch.diff || { echo "patch does not apply"; exit 2; }
@@ -12,7 +12,7 @@ PYTHONPATH=$WT /venv/bin/python seed_demo.py > $OUT/demo_with_patch.txt 2>&1; RC
 git apply -R seed_patch.diff
 PYTHONPATH=$WT /venv/bin/python seed_demo.py > $OUT/demo_without_patch.txt 2>&1; RC_WITHOUT=$?
 git apply seed_patch.diff
-S=/var/tmp/pd-seed-$ID; rm -rf $S; cp -r /repo $S; git -C $S apply $OUT/patch.diff || { echo "patch does not apply to /repo copy"; rm -rf $S; exit 2; }
+S=/var/tmp/pd-seed-${SEED_NAME:-$ID}; rm -rf $S; cp -r /repo $S; git -C $S apply $OUT/patch.diff || { echo "patch does not apply to /repo copy"; rm -rf $S; exit 2; }
 cd /verif; RES=""
 for c in $CHECKS; do
   VERIF_REPO=$S VERIF_BUILD=/verif/build/seed_$ID VERIF_EVIDENCE=$OUT/evidence VERIF_REPLAYS=$OUT/replays ./check $c > $OUT/check_$c.txt 2>&1; rc=$?
